@@ -145,5 +145,17 @@ C07_UNITS += [
              [rx("r1", ["try"], True), tx("s1", ["send", "drop"])], n=100,
              tlc_expect_error="DrainThenDisconnected is violated", fixed_cfg="spec/l2/MCMpmcChan_F4bfixed.cfg"),
 ]
+def deepunit(name, actors, n=400):
+    return dict(name=name, scenario="chan",
+                params=dict(kind="mpmc", deep=True, actors=actors, victims=[], workers=8),
+                quick=dict(explore=dict(n=n), dfs=dict(max=n, pb=2)),
+                thorough=dict(explore=dict(n=10 * n), dfs=dict(max=10 * n, pb=3)))
+C06_UNITS += [
+    deepunit("mpmc_deep_timed", [rx("r1", ["trecv", "try"], True, dur=1), tx("s1", ["send", "drop"])], n=1200),
+    deepunit("mpmc_deep_timed2", [rx("r1", ["trecv", "try"], True, dur=1), rx("r2", ["trecv"], True, dur=2), tx("s1", ["send", "drop"]), tx("s2", ["send", "drop"], True)], n=600),
+]
+C07_UNITS += [
+    deepunit("mpmc_deep_lastdrop", [rx("r1", ["recv"], True), rx("r2", ["recv"]), tx("s1", ["send", "drop"])]),
+]
 PROPS["C06"] = dict(assumptions=["queues are linearizable FIFOs (C03); AbsBlocker (C02); timers (C08)"], units=C06_UNITS + C07_UNITS)
 PROPS["C07"] = dict(assumptions=["queues are linearizable FIFOs (C03); AbsBlocker (C02); timers (C08)"], units=C07_UNITS + C06_UNITS)
